@@ -678,3 +678,135 @@ Example C16_leaf_variants_on_witnesses :
   obfuscate_json_v (LRebuildExcluded reprint_f64) Hx [[]] doc_dup =
     JObj [(s_a, JStr [115]); (s_b, JBool true)].
 Proof. vm_compute. repeat split; reflexivity. Qed.
+
+(* natural witnesses of the two refutations above, stated on the documents
+   themselves (Audit 2, item 22): a member of an object, a non-empty exclusion;
+   the general lemmas (VariantsProofs) use {"id": s} / {"id": tok} with ".id" *)
+Example C16_leaf_variants_refuted_on_documents :
+  (* C16-9: leaf .id of doc_token, not excluded, comes out in clear *)
+  descend doc_token [0%nat] = Some ([PKey s_id], JStr s_md5) /\
+  excl_upto (excluded_fixed []) [] [PKey s_id] = false /\
+  descend (obfuscate_json_v (LHashOnce looks_like_md5) Hx [] doc_token) [0%nat] =
+    Some ([PKey s_id], JStr s_md5) /\
+  descend (obfuscate_json_v LHead Hx [] doc_token) [0%nat] =
+    Some ([PKey s_id], JStr (Hx s_md5)) /\
+  (* C16-10: node .id of doc_order, excluded by ".id", comes out as another token *)
+  nodup_walked (excluded_fixed [e_id]) [] doc_order = true /\
+  descend doc_order [0%nat] = Some ([PKey s_id], JNum tok_2p53_1 txt_2p53_1) /\
+  excl_upto (excluded_fixed [e_id]) [] [PKey s_id] = true /\
+  descend (obfuscate_json_v (LRebuildExcluded reprint_f64) Hx [e_id] doc_order) [0%nat] =
+    Some ([PKey s_id], JNum tok_2p53_1_f64 txt_2p53_1) /\
+  descend (obfuscate_json_v LHead Hx [e_id] doc_order) [0%nat] =
+    Some ([PKey s_id], JNum tok_2p53_1 txt_2p53_1).
+Proof. vm_compute. repeat split; reflexivity. Qed.
+
+(* ---- Part D, the call sites as a whole (Audit 2, item 22) ------------
+   The seeded change C16-9 also changes Obfuscator.ObfuscateString - the
+   fallback of both call sites for a body that does not parse.
+   [obfuscate_body_v v] / [plugin_body_v v] carry the switch on that path too;
+   [body_hides f] = the per-body statement of Part C for a call-site function. *)
+
+Theorem C16_body_variant_head : forall H en rq excl body parsed,
+  obfuscate_body_v LHead H en rq excl body parsed = obfuscate_body H en rq excl body parsed /\
+  plugin_body_v LHead H en excl body parsed = plugin_body H en excl body parsed.
+Proof. intros. split; [apply obfuscate_body_v_head|apply plugin_body_v_head]. Qed.
+Print Assumptions C16_body_variant_head.
+
+(* /repo: whatever the body (JSON or not, empty, compressed), it leaves hidden *)
+Theorem C16_body_hides : body_hides obfuscate_body.
+Proof. exact body_hides_head. Qed.
+Print Assumptions C16_body_hides.
+
+(* with the detector on both paths: compatible exactly when it never fires *)
+Theorem C16_hash_once_body_hides_iff_never_keeps : forall d,
+  body_hides (obfuscate_body_v (LHashOnce d)) <-> (forall s, d s = false).
+Proof. exact hash_once_body_hides_iff. Qed.
+Print Assumptions C16_hash_once_body_hides_iff_never_keeps.
+
+(* refuted through the TEXT path: the non-JSON body 5f4dcc3b5aa765d61d8327deb882cf99 *)
+Theorem C16_hash_once_text_path_refuted :
+  ~ body_hides (obfuscate_body_v (LHashOnce looks_like_md5)).
+Proof.
+  apply (hash_once_text_refuted looks_like_md5 s_md5); [discriminate|].
+  vm_compute. reflexivity.
+Qed.
+Print Assumptions C16_hash_once_text_path_refuted.
+
+(* ================================================================== *)
+(* Part E - seeded change C16-12 (Audit 2, item 23): a fast path of
+   obfuscateBody returns the body as it is when one of the exclusions of the
+   direction is the body prefix or the prefix + "[]" - without looking at the
+   body ([obfuscate_body_fast], Variants.v).  "[]" names the items of a root
+   array only; for any other body the statement is false. *)
+Theorem C16_whole_body_fast_path_refuted : ~ body_hides obfuscate_body_fast.
+Proof. exact fast_path_refuted. Qed.
+Print Assumptions C16_whole_body_fast_path_refuted.
+
+Theorem C16_whole_body_fast_path_same_when_not_fired : forall H en rq excl body parsed,
+  whole_body_excluded rq excl = false ->
+  obfuscate_body_fast H en rq excl body parsed = obfuscate_body H en rq excl body parsed.
+Proof. exact fast_path_same_when_not_fired. Qed.
+Print Assumptions C16_whole_body_fast_path_same_when_not_fired.
+
+Definition side_md5_text : side := mkSide None EncNone s_md5 None None.
+
+Example C16_body_variants_on_witnesses :
+  (* text path: /repo hashes the digest-like body, the detector lets it through,
+     at both call sites *)
+  obfuscate_body_v LHead Hx true false [] s_md5 None = OutText (35 :: s_md5) /\
+  obfuscate_body_v (LHashOnce looks_like_md5) Hx true false [] s_md5 None = OutText s_md5 /\
+  plugin_body_v LHead Hx true [] s_md5 None = OutText (35 :: s_md5) /\
+  plugin_body_v (LHashOnce looks_like_md5) Hx true [] s_md5 None = OutText s_md5 /\
+  (* fast path: fires on the exclusion alone; /repo hashes the object body, and
+     agrees with the fast path on a list body; other exclusions do not fire *)
+  whole_body_excluded false [e_resp_items] = true /\
+  obfuscate_body_fast Hx true false [e_resp_items] body_as (Some doc_as) = OutJson doc_as /\
+  obfuscate_body Hx true false [e_resp_items] body_as (Some doc_as) =
+    OutJson (JObj [(s_a, JStr [35;115])]) /\
+  obfuscate_body_fast Hx true false [e_resp_items] [91] (Some (JArr [JStr [115]])) =
+    OutJson (JArr [JStr [115]]) /\
+  obfuscate_body Hx true false [e_resp_items] [91] (Some (JArr [JStr [115]])) =
+    OutJson (JArr [JStr [115]]) /\
+  whole_body_excluded true [e_resp_items] = false /\
+  whole_body_excluded false [pre_response ++ [46;97]] = false /\
+  whole_body_excluded false [pre_response] = true.
+Proof. vm_compute. repeat split; reflexivity. Qed.
+
+(* the clear text is not a hidden body *)
+Example C16_text_in_clear_is_not_hidden :
+  ~ hidden_body Hx false [] side_md5_text (OutText s_md5).
+Proof.
+  unfold hidden_body. cbn. intros [[E _]|[_ E]]; [discriminate E|].
+  vm_compute in E. discriminate E.
+Qed.
+
+(* suite plugin: the Some-branch of plugin_body as the suite evaluates it *)
+Example C16_run_plugin_on_doc :
+  run_plugin ([], body_as, doc_as, [([115], [35;115])], JObj [(s_a, JStr [35;115])]) = None /\
+  run_plugin ([], body_as, doc_as, [([115], [35;115])], doc_as) =
+    Some (JObj [(s_a, JStr [35;115])]).
+Proof. vm_compute. split; reflexivity. Qed.
+
+(* Part C, small print (Audit 2, C16 items 4-5): the single hypothesis
+   [c_enabled c = true] is needed - switched off, the body is exported in clear,
+   which is not a hidden body; a negative declared length is just an integer of
+   the sum (9 + -5 = 4 <= 4: exported, both bodies hashed); the comparison of
+   suite export tells a text from a document. *)
+Definition side_negative : side := mkSide (Some (-5)) EncNone body_as (Some doc_as) None.
+
+Example C16_export_small_print :
+  execute VHead Hx (mkConfig (Some 4) false []) side_empty side_chunked =
+    [(OutText [], OutText body_as)] /\
+  execute VHead Hx cfg4 side_accurate side_negative =
+    [(OutJson (JObj [(s_a, JStr [35;115])]), OutJson (JObj [(s_a, JStr [35;115])]))] /\
+  execute VHead Hx cfg4 side_accurate side_empty = [] /\
+  records_eqb [(OutText [], OutText body_as)] [(ObsText [], ObsJson doc_as)] = false /\
+  records_eqb [(OutText [], OutJson doc_as)] [(ObsText [], ObsText body_as)] = false /\
+  records_eqb [(OutText [], OutJson doc_as)] [(ObsText [], ObsJson doc_as)] = true.
+Proof. vm_compute. repeat split; reflexivity. Qed.
+
+Example C16_export_enabled_is_needed :
+  ~ hidden_body Hx false [] side_chunked (OutText body_as).
+Proof.
+  unfold hidden_body. cbn. intros [[E _]|[E _]]; discriminate E.
+Qed.
